@@ -152,7 +152,7 @@ func checkC13(c *Ctx, r *Report) {
 		if ok {
 			a := callArgs(calls[0])
 			d, isC := constString(a[1])
-			ok = isC && d == constStrObj(c, "core/peer", "PeerRecordEnvelopeDomain") && isLoadOfField(idP+"/pb.Identify.SignedPeerRecord")(strip(a[0]))
+			ok = isC && d == constStrObj(c, "core/peer", "PeerRecordEnvelopeDomain") && isFieldOrGetter(idP+"/pb.Identify.SignedPeerRecord")(strip(a[0]))
 		}
 		r2.Check(ok, idP+".signedPeerRecordFromMessage: ConsumeEnvelope(msg.SignedPeerRecord, PeerRecordEnvelopeDomain)", f.Pos(), 1, "", "an envelope signed for another purpose (domain) is accepted as a peer record", "")
 	}
@@ -548,7 +548,7 @@ func checkC13(c *Ctx, r *Report) {
 					ci, ok := in.(*ssa.Call)
 					return ok && calleeKey(ci) == "builtin.close" && strip(ci.Call.Args[0]) == ssa.Value(mkc)
 				})
-				w, n := (&Cut{Fn: f, From: []ssa.Instruction{mkc}, Target: isInstr(ret), Sep: inSet(cl)}).Run(c)
+				w, n := (&Cut{Fn: f, From: []ssa.Instruction{mkc}, Target: isInstr(ret), EdgeCut: failCut(ret), Sep: inSet(cl)}).Run(c)
 				r6.Check(len(cl) >= 1 && w == "", ids("IdentifyWait")+": the channel returned for an untracked closed connection is already closed", instrPos(ret), n+1, "", "IdentifyConn on a closed connection blocks forever", w)
 			} else {
 				r6.Check(derivesFrom(v, isLoadOfField(idP+".entry.IdentifyWaitChan")) || derivesFrom(v, func(x ssa.Value) bool { _, ok := x.(*ssa.MakeChan); return ok }), ids("IdentifyWait")+": returns the entry's wait channel", instrPos(ret), 1, "", "", describeVal(v))
@@ -593,7 +593,16 @@ func checkC13(c *Ctx, r *Report) {
 					return true
 				}
 				ret, isR := in.(*ssa.Return)
-				return isR && !isNilConst(retVal(ret, 0))
+				if !isR || ret.Parent() != f {
+					return false
+				}
+				// a hand-over: some stream may be returned (nil through a local "abort" helper is not one)
+				for _, l := range phiLeaves(retVal(ret, 0)) {
+					if !isNilConst(l) {
+						return true
+					}
+				}
+				return false
 			}
 			w, n := (&Cut{Fn: f, Target: blocking, Sep: inSet(dl)}).Run(c)
 			r7.Check(len(dl) >= 1 && w == "", idP+".newStreamAndNegotiate: SetDeadline(now+timeout) on the new stream precedes negotiation and the hand-over", f.Pos(), n+1, "", "an unresponsive peer blocks the negotiation forever: the identify-wait of that connection is never released", w)
